@@ -67,7 +67,7 @@ def _dimensions(ctx, mod):
                     node.op, ast.Sub) and isinstance(node.target,
                                                      ast.Subscript) and \
                     isinstance(node.target.slice, ast.Constant):
-                par = _parser_of(node.value)
+                par = _parser_of(K.rexpr(func, node.value))
                 if par:
                     sub_[node.target.slice.value] = (par[0], par[2], node)
                 else:
@@ -79,7 +79,8 @@ def _dimensions(ctx, mod):
     cmp_ = {}
     for node in K.walk_no_nested(chk.node):
         if isinstance(node, ast.Compare) and len(node.ops) == 1:
-            sides = [node.left, node.comparators[0]]
+            sides = [K.rexpr(chk, node.left),
+                     K.rexpr(chk, node.comparators[0])]
             for req, lim in (sides, sides[::-1]):
                 par = _parser_of(req)
                 if par and isinstance(lim, ast.Subscript) and \
@@ -126,7 +127,8 @@ def _rejection(ctx, chk, dims):
             if edge.src.kind == 'test' and isinstance(edge.src.ast,
                                                       ast.Compare):
                 cmpx = edge.src.ast
-                left, right = cmpx.left, cmpx.comparators[0]
+                left = K.rexpr(chk, cmpx.left)
+                right = K.rexpr(chk, cmpx.comparators[0])
                 opn = cmpx.ops[0]
                 if edge.kind == 'false':
                     opn = {ast.LtE: ast.Gt(), ast.GtE: ast.Lt()}.get(
@@ -216,11 +218,32 @@ def _check_before_write(ctx, mod):
                    'checked with (cell, allocation, request) from the '
                    'rsrc_id split', construct='_check_capacity arguments '
                                               'in %s' % name)
-    src = ast.unparse(cap.node)
+    cparams = cap.params()
+    ctx.require(len(cparams) >= 3, 'parameters of _check_capacity')
+
+    def excluded_ok(expr):
+        expr = K.rexpr(cap, expr)
+        want = [cparams[1], cparams[0]]           # allocation, cell
+        if isinstance(expr, ast.Call) and K.is_meth(expr, 'format') and \
+                isinstance(K.recv(expr), ast.Constant) and \
+                K.recv(expr).value in ('{0}/{1}', '{}/{}'):
+            return [N.txt(a) for a in expr.args] == want
+        if isinstance(expr, ast.BinOp) and isinstance(expr.op, ast.Mod) \
+                and isinstance(expr.left, ast.Constant) and \
+                expr.left.value == '%s/%s' and \
+                isinstance(expr.right, ast.Tuple):
+            return [N.txt(a) for a in expr.right.elts] == want
+        return False
+    accountings = {}
+    for call in K.calls(cap.node):
+        if isinstance(call.func, ast.Name) and call.func.id in (
+                '_calc_free', '_calc_free_traits') and len(call.args) == 3:
+            accountings[call.func.id] = call
+    listing = set(K.rtxt(cap, c.args[1]) for c in accountings.values())
     ctx.ob('C19.3', cap, None,
-           "old_id = '{0}/{1}'.format(allocation, cell)" in src and
-           '_calc_free(part_obj, allocs, old_id)' in src and
-           '_calc_free_traits(limits, allocs, old_id)' in src,
+           set(accountings) == {'_calc_free', '_calc_free_traits'} and
+           all(excluded_ok(c.args[2]) for c in accountings.values()) and
+           len(listing) == 1 and '.list(' in list(listing)[0],
            "the reservation being replaced ('<allocation>/<cell>') is "
            'excluded in both accountings', construct='excluded id')
     for fname in ('_calc_free', '_calc_free_traits'):
@@ -309,28 +332,52 @@ def _key_guarantee(ctx, mod, handlers, cap, chk):
 
 
 def _trait_limits(ctx, mod, cap):
+    rsrc = cap.params()[2]
+    tcalls = [c for c in K.calls(cap.node)
+              if isinstance(c.func, ast.Name) and
+              c.func.id == '_calc_free_traits' and c.args]
+    ctx.require(len(tcalls) == 1 and isinstance(tcalls[0].args[0],
+                                                ast.Name),
+                'per-trait accounting call in _check_capacity')
+    lname = tcalls[0].args[0].id
     comp = None
     for sub in K.walk_no_nested(cap.node):
         if isinstance(sub, ast.Assign) and N.txt(sub.targets[0]) == \
-                'limits' and isinstance(sub.value, ast.ListComp):
+                lname and isinstance(sub.value, ast.ListComp):
             comp = sub.value
     ctx.require(comp is not None, 'selection of applicable limits')
     gen = comp.generators[0]
+    var = N.txt(gen.target)
     conds = [N.txt(i) for i in gen.ifs]
-    ok = N.txt(gen.iter) == "part_obj['limits']" and conds == [
-        "limit['trait'] in rsrc.get('traits', [])"] and \
-        N.txt(comp.elt) == N.txt(gen.target)
+    src = K.rexpr(cap, gen.iter)
+    ok = isinstance(src, ast.Subscript) and \
+        N.txt(src.slice) == "'limits'" and \
+        ('_partition_get(' in N.txt(src.value) or
+         isinstance(src.value, ast.Name) and any(
+             n.endswith(':_partition_get') for n in cap.inlined_callees)) \
+        and conds == [
+            "%s['trait'] in %s.get('traits', [])" % (var, rsrc)] and \
+        N.txt(comp.elt) == var and len(comp.generators) == 1
     ctx.ob('C19.5', cap, comp, ok,
            "limits consulted: exactly those whose trait is in the request's "
            'traits: %s' % conds, construct='applicable limits')
     # every applicable limit is checked
     loops = [s for s in K.walk_no_nested(cap.node)
-             if isinstance(s, ast.For) and N.txt(s.iter) == 'limits']
+             if isinstance(s, ast.For) and N.txt(s.iter) == lname]
+
+    def per_trait(call, lvar):
+        if not (isinstance(call, ast.Call) and
+                isinstance(call.func, ast.Name) and
+                call.func.id == '_check_limit' and len(call.args) >= 2 and
+                N.txt(call.args[1]) == rsrc):
+            return False
+        free = K.rexpr(cap, call.args[0])
+        return isinstance(free, ast.Subscript) and \
+            isinstance(free.value, ast.Call) and \
+            N.txt(free.value.func) == '_calc_free_traits' and \
+            N.txt(free.slice) == "%s['trait']" % lvar
     ok = len(loops) == 1 and any(
-        isinstance(s, ast.Call) and isinstance(s.func, ast.Name) and
-        s.func.id == '_check_limit' and
-        N.txt(s.args[0]) == "free_by_trait[%s['trait']]" %
-        N.txt(loops[0].target) and N.txt(s.args[1]) == 'rsrc'
+        per_trait(s, N.txt(loops[0].target))
         for s in ast.walk(loops[0])) and not any(
             isinstance(s, (ast.Break, ast.Continue, ast.Return))
             for s in ast.walk(loops[0]))
